@@ -11,6 +11,7 @@
  5. decide: property checker false on an observed output  -> VIOLATION with replay
             correspondence broken, no checker false        -> VIOLATION ... no-failing-input-found
             failure attributed to a listed known finding   -> KNOWN-FINDING line
+            derive tier (C05 thorough): interner != scale-info's derive -> HARNESS-VALIDATION-FAILED (a defect of the harness)
  6. write evidence/<Cxx>.json
 """
 import json, os, re, subprocess, sys, time, glob, shutil, tempfile
@@ -36,7 +37,9 @@ ASSUMPTIONS_COMMON = [
 ASSUMPTIONS = {
     "C01": ["the meaning rustc and parity-scale-codec's derive give to an emitted item is the shape semantics shape_rust of Model/Shape.v (not validated by compilation)"],
     "C02": ["rustc acceptance is not checked; syn::parse2::<File> is run on every observed module"],
-    "C05": ["the harness interner (harness/src/reggen.rs) produces what scale-info's derive would produce for the program"],
+    "C05": ["the harness interner (harness/src/reggen.rs) produces what scale-info's derive would produce for the program "
+            "(quick tier: not re-validated in this run; the thorough tier compiles the programs and compares with the real derive); "
+            "its entries are checked against the specification RegistryOf on every case (corr_registry_of)"],
     "C06": ["std HashMap / HashSet iteration order is an arbitrary permutation and nothing else leaks; runs in fresh processes are not part of this check"],
     "C12": ["the ChaCha8 word stream is an oracle supplied by the harness (rand_chacha); encode/decode round trips are executed with scale-value, not proved"],
     "C14": ["the ChaCha8 word stream is an oracle supplied by the harness (rand_chacha); syn::parse2::<Expr> is run on every observed example"],
@@ -57,7 +60,14 @@ ASSUMPTIONS_THOROUGH = {
             "next to the generated module, built from the decoded variant's own fields, and must encode to the item's bytes minus the index byte - "
             "on the sampled registries and vectors only"],
 }
+ASSUMPTIONS_THOROUGH["C05"] = [
+    "the harness interner (harness/src/reggen.rs) produces what scale-info's derive produces for the program: validated in this run by the "
+    "derive tier (coverage.derive_tier): the arm corpus, the identity corpus and the first programs of this run's random stream are printed "
+    "as Rust source with #[derive(scale_info::TypeInfo)], compiled offline against scale-info 2.11.5, registered in a scale_info::Registry and "
+    "compared with the interner's registry (exact JSON equality after the normalisation stated in coverage.derive_tier.normalisation) - on the "
+    "compared programs only; programs that are not expressible as compiling Rust are skipped and counted"]
 COMPILE_TIER_PARTS = {"C02": "a", "C01": "ab", "C18": "ac"}
+DERIVE_TIER_RANDOM = 300
 
 # extra Coq targets a property needs besides Properties/<id>.vo and Corr/Run<id>.vo
 # Corr/RunC17.v: case type of the C17 run (pair + retained artefacts)
@@ -250,6 +260,34 @@ def compile_tier(prop, seed, work=None, replay=None):
         return None, out
 
 
+def derive_tier(seed, work, replay=None):
+    """Thorough tier of C05 (DESIGN.md 5.5): the harness prints programs as Rust source with scale-info's derive into a
+    scratch cargo project outside /repo and the verification tree, builds it offline, runs it, compares the derived
+    registries with the interner's and removes everything again (here as well, in case the harness is killed).
+    Returns (report or None, log)."""
+    exe = os.path.join(HARNESS, "target", "release", "vharness")
+    scratch = tempfile.mkdtemp(prefix="dt_C05_%d_" % os.getpid())
+    rep_path = os.path.join(work, "derive_tier.json")
+    if os.path.exists(rep_path):
+        os.remove(rep_path)
+    env = dict(os.environ)
+    env["VERIF_DIR"] = ROOT
+    env["CARGO_NET_OFFLINE"] = "true"
+    cmd = [exe, "derive-tier", str(seed), work, "--random", str(DERIVE_TIER_RANDOM), "--scratch", os.path.join(scratch, "p")]
+    if replay:
+        cmd += ["--replay", replay]
+    try:
+        rc, out = sh(cmd, cwd=ROOT, timeout=2400, env=env)
+    except subprocess.TimeoutExpired:
+        rc, out = 124, "derive tier timed out"
+    finally:
+        shutil.rmtree(scratch, ignore_errors=True)
+    try:
+        return json.load(open(rep_path)), out
+    except Exception:
+        return None, out
+
+
 TAG_RE = re.compile(r'\(\s*"([A-Za-z0-9_]+)"\s*,\s*(\[[^\]]*\]|nil)', re.S)
 
 
@@ -291,7 +329,8 @@ def main():
     work = os.path.join(ROOT, "work", prop)
     os.makedirs(work, exist_ok=True)
     for f in glob.glob(os.path.join(work, "replay_*.json")):
-        os.remove(f)
+        if not (replay and os.path.abspath(f) == replay):
+            os.remove(f)
     os.makedirs(os.path.join(ROOT, "evidence"), exist_ok=True)
     evidence_path = os.path.join(ROOT, "evidence", prop + ".json")
 
@@ -307,6 +346,17 @@ def main():
             ct_replay = json.load(open(replay)).get("kind") == "compile-tier"
         except Exception:
             ct_replay = False
+
+    # a replay file written by the derive tier (C05) is re-run by the derive tier (any tier)
+    dt_replay = False
+    if replay and prop == "C05":
+        try:
+            rj = json.load(open(replay))
+            dt_replay = rj.get("kind") == "derive-tier"
+            if dt_replay and "seed" in rj and "VERIF_SEED" not in os.environ:
+                seed = int(rj["seed"])
+        except Exception:
+            dt_replay = False
 
     def write_replay(name, obj):
         p = os.path.join(work, "replay_%s.json" % name)
@@ -352,7 +402,7 @@ def main():
                                            "obligation": "the harness (public API of /repo) no longer builds",
                                            "log_tail": hlog[-4000:]})
         violations.append((p, "no-failing-input-found"))
-    elif ok_coq and not ct_replay:
+    elif ok_coq and not ct_replay and not dt_replay:
         ok_r, rlog = run_harness(prop, tier, seed, work, replay)
         if not ok_r:
             # the harness records the input it is observing (inflight_ctx.json + inflight.json): when the
@@ -480,6 +530,22 @@ def main():
                 notes.append("compile tier: witnesses of %s no longer fail to compile - the exclusion of such registries should be lifted"
                              % ", ".join(ct["known_findings_not_reproduced"]))
 
+    # ---- 2c. derive tier (thorough, C05): validation of the HARNESS (the interner), not of scale-typegen ----
+    dt = None
+    harness_validation = []
+    if prop == "C05" and ok_h and ((tier == "thorough" and not replay) or dt_replay):
+        dt, dt_log = derive_tier(seed, work, replay if dt_replay else None)
+        if dt is None:
+            harness_validation.append("derive tier (vharness derive-tier) did not produce a report: %s" % dt_log[-600:].replace("\n", " | "))
+        elif dt.get("failures"):
+            first = (dt.get("mismatches") or [{}])[0]
+            harness_validation.append(
+                "derive-tier: %d failure(s) on %d compared programs (%d equal, %d rejected by rustc, %d not compared): the harness interner "
+                "(harness/src/reggen.rs) does not produce what scale-info's derive produces - a defect of the verification harness, not of "
+                "scale-typegen; first: %s %s replay=%s"
+                % (dt["failures"], dt.get("compared", 0), dt.get("equal", 0), dt.get("rustc_rejected", 0), dt.get("not_compared", 0),
+                   first.get("name", "?"), (first.get("what") or (dt.get("build_errors") or ["?"])[0])[:300], first.get("replay", "-")))
+
     # ---- 3. report --------------------------------------------------------------
     seen = set()
     known_lines = known_lines + ct_known
@@ -489,6 +555,8 @@ def main():
             print("KNOWN-FINDING: property=%s %s %s" % (prop, f["id"], f["what"]))
     for p, suffix in violations:
         print(("VIOLATION property=%s replay=%s %s" % (prop, p, suffix)).rstrip())
+    for h in harness_validation:
+        print("HARNESS-VALIDATION-FAILED property=%s %s" % (prop, h))
 
     corr_tags = sorted(t for t in tags if t.startswith("corr_"))
     prop_tags = sorted(t for t in tags if t.startswith("prop_"))
@@ -498,6 +566,10 @@ def main():
     if prop in COMPILE_TIER_PARTS and ((tier == "thorough" and not replay) or ct_replay):
         obligations += 1
         if ct is not None and not ct.get("failures"):
+            discharged += 1
+    if prop == "C05" and ((tier == "thorough" and not replay) or dt_replay):
+        obligations += 1
+        if dt is not None and not dt.get("failures"):
             discharged += 1
     ax_text = {t: ("Closed under the global context" if not a else "Axioms: " + ", ".join(a))
                for t, a in assumptions.items()}
@@ -534,7 +606,7 @@ def main():
                                           if cross_done else "not part of this property's check"),
             "coqc_eval_wall_s": round(coqc_wall, 1),
         },
-        "assumptions": ASSUMPTIONS_COMMON + ((ASSUMPTIONS_THOROUGH if ct is not None else ASSUMPTIONS).get(prop)
+        "assumptions": ASSUMPTIONS_COMMON + ((ASSUMPTIONS_THOROUGH if (ct is not None or dt is not None) else ASSUMPTIONS).get(prop)
                                              or ASSUMPTIONS.get(prop, [])) + notes,
         "wall_s": round(time.time() - t0, 1),
         "violations": len(violations),
@@ -556,8 +628,23 @@ def main():
             "cmd": "harness/target/release/vharness compile-tier <seed> work/%s --parts %s --polkadot (cargo build --offline in a scratch "
                    "directory under $TMPDIR, removed afterwards)" % (prop, COMPILE_TIER_PARTS[prop]),
         }
+    if dt is not None:
+        ev["coverage"]["derive_tier"] = {
+            "programs": dt.get("programs"), "compared": dt.get("compared"), "equal": dt.get("equal"),
+            "skipped": dt.get("skipped"), "mismatches": dt.get("mismatches", [])[:10],
+            "rustc_rejected": dt.get("rustc_rejected"), "not_compared": dt.get("not_compared"), "build_errors": dt.get("build_errors", [])[:5],
+            "equal_with_identity_duplicates": dt.get("equal_with_identity_duplicates"),
+            "programs_with_wrapped_type_names": dt.get("programs_with_wrapped_type_names"),
+            "differ_from_the_interner_with_canon_identity": dt.get("differ_from_the_interner_with_canon_identity"),
+            "normalisation": dt.get("normalisation"), "random": dt.get("random"), "seed": dt.get("seed"),
+            "build_s": dt.get("build_s"), "wall_s": dt.get("wall_s"), "scratch_removed": dt.get("scratch_removed"),
+            "cmd": "harness/target/release/vharness derive-tier <seed> work/C05 --random %d (cargo build --offline in a scratch directory "
+                   "under $TMPDIR, removed afterwards; scale-info 2.11.5 with derive, bit-vec, docs, serde)" % DERIVE_TIER_RANDOM,
+        }
+    if harness_validation:
+        ev["harness_validation_failed"] = harness_validation
     json.dump(ev, open(evidence_path, "w"), indent=1, ensure_ascii=False)
-    sys.exit(1 if violations else 0)
+    sys.exit(1 if violations or harness_validation else 0)
 
 
 if __name__ == "__main__":
